@@ -333,6 +333,50 @@ def r16g(ctx):
         raise AnalysisError("R16g: no append_plain_text found")
 
 
+def r16h(ctx):
+    """The text that is searched is read from the live tree each time.
+
+    search / search_all / text_at / match index the element's text as it is *now*.  An accessor that remembers its last answer on the wrapper
+    (an attribute written by the getter, functools cache decorators) answers from the old text after a descendant run was edited through
+    another wrapper — no fingerprint of the element's own slots can see that.  Rule: the accessor the search family reads, and every
+    accessor it is built from (two levels), writes no attribute of self and carries no cache decorator.
+    """
+    repo = ctx.repo
+    ctx.rule("R16h", "the text accessors behind search are recomputed from the live tree (no memo on the wrapper, no cache decorator)", floor=2)
+    el = repo.cls("Element")
+    f0 = repo.func("Element.search")
+    roots = sorted({n.attr for n in walk_no_nested(f0.node) if isinstance(n, ast.Attribute) and isinstance(n.value, ast.Name) and n.value.id == "self"
+                    and el.lookup(n.attr, "getter") is not None})
+    seen, work = set(), [(r, 0) for r in roots]
+    while work:
+        prop, d = work.pop()
+        if prop in seen or d > 2:
+            continue
+        seen.add(prop)
+        g = el.lookup(prop, "getter")
+        if g is None:
+            continue
+        stores = [a for a in walk_no_nested(g.node) if isinstance(a, (ast.Assign, ast.AugAssign, ast.AnnAssign))
+                  for t in (a.targets if isinstance(a, ast.Assign) else [a.target])
+                  if isinstance(t, ast.Attribute) and isinstance(t.value, ast.Name) and t.value.id == "self"]
+        stores += [c for c in walk_no_nested(g.node) if isinstance(c, ast.Call) and call_name(c) == "setattr" and c.args and isinstance(c.args[0], ast.Name) and c.args[0].id == "self"]
+        deco = [d_ for d_ in g.node.decorator_list if any(isinstance(x, (ast.Name, ast.Attribute)) and (getattr(x, "id", None) or getattr(x, "attr", "")) in
+                                                          ("cache", "lru_cache", "cached_property") for x in ast.walk(d_))]
+        ok = not stores and not deco
+        ctx.instance("R16h", f"{g.file}:{g.ident}", "computed from the tree on every read" if ok else "keeps its answer on the wrapper", ok=ok, nontrivial=True, line=g.node.lineno)
+        if not ok:
+            at = stores[0] if stores else g.node
+            ctx.report("R16h", g, at, f"{norm(at, 60)}" if stores else f"cache decorator on {g.ident}",
+                       f"{g.ident} is (part of) the text that search/search_all/text_at/match read, and it remembers its result on the wrapper: after a text run of a "
+                       f"descendant is changed (replace() inside a span, an edit through another wrapper) the next search answers from the old text, so positions no longer "
+                       f"index the element's text")
+        for n in walk_no_nested(g.node):
+            if isinstance(n, ast.Attribute) and isinstance(n.value, ast.Name) and n.value.id == "self" and n.attr != prop and el.lookup(n.attr, "getter") is not None:
+                work.append((n.attr, d + 1))
+    if not roots:
+        raise AnalysisError("R16h: Element.search reads no property accessor")
+
+
 def run(ctx):
     arm, else_incs, loop = r16a(ctx)
     r16b(ctx, arm, else_incs, loop)
@@ -341,12 +385,17 @@ def run(ctx):
     r16d(ctx)
     r16e(ctx)
     r16g(ctx)
+    r16h(ctx)
 
 
 from ..selftest import Seed, unparse_seed  # noqa: E402
 
 _EL = "src/odfdo/element.py"
 SEEDS = [
+    Seed("text_recursive memoised on the wrapper", "fault", _EL,
+         '        return self.inner_text + (self.tail or "")', '        if getattr(self, "_tr", None) is None:\n            self._tr = self.inner_text + (self.tail or "")\n        return self._tr', "R16h"),
+    Seed("inner_text with a cache decorator", "fault", _EL,
+         '    @property\n    def inner_text(self) -> str:', '    @property\n    @cache\n    def inner_text(self) -> str:', "R16h"),
     Seed("append_plain_text skips the rebuild when nothing is appended", "fault", "src/odfdo/paragraph.py",
          "        content = self._expand_spaces(stext)\n", "        if not stext:\n            return\n        content = self._expand_spaces(stext)\n", "R16g"),
     Seed("append_plain_text fast path looks at the leading text only", "fault", "src/odfdo/paragraph.py",
